@@ -93,12 +93,17 @@ def build_input(rng, idx):
     alias = rng.random() < 0.5
     keys = [("alias_" + n.lower()) if (alias and rng.random() < 0.6) else n for n in names]
     # the documented input forms: dictionary / mapping / collection of 2-tuples
-    form = rng.choice(["dict", "dict", "list_of_pairs", "tuple_of_pairs"])
+    form = rng.choice(["dict", "dict", "list_of_pairs", "tuple_of_pairs", "zip_of_pairs", "generator_of_pairs"])
     if form == "dict":
         lines.append("input_map = {" + ", ".join("'{0}': {1}".format(k, n) for k, n in zip(keys, names)) + "}")
     else:
         body = ", ".join("('{0}', {1})".format(k, n) for k, n in zip(keys, names)) + ("," if len(keys) == 1 else "")
-        lines.append("input_map = " + ("[" + body + "]" if form == "list_of_pairs" else "(" + body + ")"))
+        if form == "zip_of_pairs":  # a one-shot iterable of pairs
+            lines.append("input_map = zip(({0},), ({1},))".format(", ".join(repr(k) for k in keys), ", ".join(names)))
+        elif form == "generator_of_pairs":
+            lines.append("input_map = (zq_pair for zq_pair in [" + body + "])")
+        else:
+            lines.append("input_map = " + ("[" + body + "]" if form == "list_of_pairs" else "(" + body + ")"))
     expect = {k: expect[n] for k, n in zip(keys, names)}
     obj_kind = {k: ("class" if n.startswith("Klass") else "function") for k, n in zip(keys, names)}
     names = keys
